@@ -637,3 +637,48 @@ namespace vd
         return res;
     }
 }
+
+// ---- pbo: open an archive with the real reader, list it and read every entry through the virtual file system ----
+namespace vd
+{
+    js::val mode_pbo(const js::val& req)
+    {
+        g_log.clear();
+        vmconf c; c.ops = "none";
+        auto v = make_vm(0, c);
+        auto out = js::val::object();
+        std::string path = req["path"].str();
+        rvutils::pbo::pbofile pbo{ std::filesystem::path(path) };
+        out.set("good", pbo.good());
+        if (pbo.good())
+        {
+            auto attrs = js::val::array();
+            for (auto& a : pbo.attributes()) { auto p = js::val::array(); p.push(a.first); p.push(a.second); attrs.push(p); }
+            out.set("attributes", attrs);
+            auto files = js::val::array();
+            for (auto& f : pbo.files()) { auto o = js::val::object(); o.set("name", f.name); o.set("size", (long long)f.size); files.push(o); }
+            out.set("files", files);
+            auto& fio = static_cast<sqf::fileio::impl_default&>(v->rt->fileio());
+            fio.add_pbo_mapping(pbo);
+            auto reads = js::val::array();
+            auto& names = req["read"];
+            for (size_t i = 0; i < names.size(); i++)
+            {
+                auto o = js::val::object();
+                std::string vp = names[i].str();
+                o.set("path", vp);
+                auto info = fio.get_info(vp, {});
+                o.set("found", info.has_value());
+                if (info.has_value())
+                {
+                    auto content = fio.read_file(*info);
+                    o.set("content", content);
+                }
+                reads.push(o);
+            }
+            out.set("reads", reads);
+        }
+        out.set("log", log_to_json(0));
+        return out;
+    }
+}
